@@ -26,7 +26,7 @@ from vlib import hlib
 
 hlib.require_repo_src()
 from srctools.vtf import (  # noqa: E402
-    VTF, CubeSide, ImageFormats, Resource, ResourceID, SheetSequence, TexCoord, VTFFlags,
+    VTF, CubeSide, Frame, ImageFormats, Resource, ResourceID, SheetSequence, TexCoord, VTFFlags,
 )
 
 EXACT4 = {'RGBA8888', 'ABGR8888', 'ARGB8888', 'BGRA8888', 'UVWQ8888', 'UVLX8888'}
@@ -96,12 +96,56 @@ def slice_index(s) -> int:
     return s.value if isinstance(s, CubeSide) else int(s)
 
 
-def proj_keys(vtf: VTF, with_off: bool) -> list:
+def frame_keys(vtf: VTF) -> dict:
+    """The frame table as the public API shows it: VTF.get() probed for every frame, depth layer or
+    cube face and mipmap level (a KeyError means "no such frame"); len(vtf) must agree."""
+    cube = VTFFlags.ENVMAP in vtf.flags
+    out = {}
+    for f in range(vtf.frame_count):
+        for s in (list(CubeSide) if cube else range(max(vtf.depth, 1))):
+            for m in range(16):
+                try:
+                    fr = vtf.get(frame=f, side=s, mipmap=m) if cube else vtf.get(frame=f, depth=s, mipmap=m)
+                except KeyError:
+                    continue
+                out[(f, slice_index(s), m)] = fr
+    if len(vtf) != len(out):
+        out[(-1, -1, -1)] = None          # frames the probing cannot reach: shows up as a key mismatch
+    return out
+
+
+def slice_count(c: dict) -> int:
+    return (6 if c['minor'] >= 5 else 7) if c['cube'] else c['depth']
+
+
+def layout_offsets(hdr: dict, c: dict) -> dict:
+    """Where the format puts every image of the file: the harness's own walk over the header fields
+    (image block offset from the resource table, or header size + thumbnail before 7.3; smallest
+    mipmap first, then frames, then faces / depth layers).  TLC checks it against VtfLayoutOps."""
+    bits, comp = FMT_INFO[c['fmt']][1], FMT_INFO[c['fmt']][2]
+    if hdr['minor'] >= 3:
+        pos = next(e['data'] for e in hdr['entries'] if e['id'] == '300000')
+    else:
+        lbits, lcomp = FMT_INFO[c['low']][1], FMT_INFO[c['low']][2]
+        lsize = (lbits * ((hdr['lw'] + 3) // 4) * ((hdr['lh'] + 3) // 4) // 8 if lcomp else lbits * hdr['lw'] * hdr['lh'] // 8) if c['low'] != 'NONE' else 0
+        pos = hdr['hsize'] + lsize
+    out = {}
+    for m in reversed(range(hdr['mip'])):
+        w, h = max(1, hdr['w'] >> m), max(1, hdr['h'] >> m)
+        size = bits * ((w + 3) // 4) * ((h + 3) // 4) // 8 if comp else bits * w * h // 8
+        for f in range(hdr['frames']):
+            for sl in range(slice_count(c)):
+                out[f, sl, m] = (pos, size)
+                pos += size
+    return out
+
+
+def proj_keys(vtf: VTF, offs: dict | None) -> list:
     out = []
-    for (f, s, m), frame in vtf._frames.items():
-        row = [f, slice_index(s), m, frame.width, frame.height]
-        if with_off:
-            row.append(frame._fileinfo[1] if frame._fileinfo is not None else -1)
+    for (f, s, m), frame in frame_keys(vtf).items():
+        row = [f, s, m, frame.width if frame else 0, frame.height if frame else 0]
+        if offs is not None:
+            row.append(offs.get((f, s, m), (-1, 0))[0])
         out.append(row)
     return sorted(out)
 
@@ -128,7 +172,7 @@ def proj_sheet(vtf: VTF) -> list:
 def proj_cfg(vtf: VTF, sheet_ver: int, fill: str) -> dict:
     return {'w': vtf.width, 'h': vtf.height, 'frames': vtf.frame_count, 'depth': vtf.depth,
             'cube': VTFFlags.ENVMAP in vtf.flags, 'fill': fill, 'minor': vtf.version[1], 'fmt': vtf.format.name,
-            'low': vtf.low_format.name, 'lw': vtf._low_res.width, 'lh': vtf._low_res.height, 'mip': vtf.mipmap_count,
+            'low': vtf.low_format.name, 'lw': 16, 'lh': 16, 'mip': vtf.mipmap_count,
             'res': proj_res(vtf),
             'sheet': {'has': bool(vtf.sheet_info), 'ver': sheet_ver if vtf.sheet_info else 0,
                       'seqs': [len(s.frames) for s in vtf.sheet_info.values()]}}
@@ -147,9 +191,13 @@ def low_offset(hdr: dict) -> int:
     return hdr['hsize']
 
 
+def frame_bytes(frame) -> bytes:
+    """The RGBA pixels of a frame through its public buffer interface."""
+    return memoryview(frame).tobytes()
+
+
 def pixels_of(frame) -> list:
-    frame.load()
-    d = frame._data
+    d = frame_bytes(frame)
     return [[d[i], d[i + 1], d[i + 2], d[i + 3]] for i in range(0, len(d), 4)]
 
 
@@ -166,7 +214,10 @@ def rand_image(rng: random.Random, n: int) -> bytes:
 
 
 def slices_of(vtf: VTF) -> list:
-    return list(vtf._depth_range())
+    """Depth layers, or the cube faces the version has (the sphere map ended with 7.4)."""
+    if VTFFlags.ENVMAP in vtf.flags:
+        return [s for s in CubeSide if s is not CubeSide.SPHERE or vtf.version[1] < 5]
+    return list(range(vtf.depth))
 
 
 def frame_of(vtf: VTF, f: int, s, m: int):
@@ -191,7 +242,7 @@ def fill_vtf(vtf: VTF, fill: str, rng: random.Random) -> dict:
     """Give pixel data to level 0 ('l0'), to every level ('all') or to levels 0 and 2 ('mid'); the
     other levels are left to compute_mipmaps.  Returns key -> bytes given."""
     given = {}
-    levels = sorted({m for (_, _, m) in vtf._frames})
+    levels = sorted({m for (_, _, m) in frame_keys(vtf)})
     for f in range(vtf.frame_count):
         for s in slices_of(vtf):
             for m in levels:
@@ -246,15 +297,15 @@ def build(path: list, rng_seed: int):
 
 # ------------------------------------------------------------------ one save / read
 def round_trip(vtf: VTF, sheet_ver: int, fill: str, given: dict, variant: str, with_pix: bool, src: str) -> dict:
-    levels = len({m for (_, _, m) in vtf._frames})
+    pre_keys = frame_keys(vtf)
+    levels = len({m for (_, _, m) in pre_keys})
     if variant == 'adj':
         vtf.mipmap_count = levels         # a texture whose header count matches its table (as one read from a file has)
     c = proj_cfg(vtf, sheet_ver, fill)
     meta = proj_meta(vtf)
     sheet_in = proj_sheet(vtf)
-    pre_keys = {(f, slice_index(s), m): fr for (f, s, m), fr in vtf._frames.items()}
     rec = {'k': 'rt', 'c': c, 'variant': variant, 'levels': levels, 'meta': meta, 'sheet': sheet_in, 'exc': '',
-           'hdr': {'err': '-'}, 'out': 0, 'pix': [], 'exact': -1, 'resave': True, 'low2': [], 'lowout': []}
+           'hdr': {'err': '-'}, 'out': 0, 'pix': [], 'exact': -1, 'resave': True, 'low2': []}
     sig = {'kind': 'rt', 'action': 'save', 'variant': variant, 'fmt': c['fmt'], 'low': c['low'], 'minor': c['minor'],
            'cube': c['cube'], 'src': src, 'thin': min(c['w'], c['h']) == 1, 'has_res': bool(c['res']),
            'sheet_ver': sheet_ver if c['sheet']['has'] else -1}
@@ -263,35 +314,37 @@ def round_trip(vtf: VTF, sheet_ver: int, fill: str, given: dict, variant: str, w
         buf = io.BytesIO()
         vtf.save(buf, sheet_seq_version=sheet_ver)
         data = buf.getvalue()
-        rec['hdr'] = parse_vtf(data)
-        src_file = io.BytesIO(data)
-        back = VTF.read(src_file)
+        hdr = rec['hdr'] = parse_vtf(data)
+        if hdr['err']:
+            raise ValueError('written header unreadable: ' + hdr['err'])
+        c['lw'], c['lh'] = hdr['lw'], hdr['lh']          # the thumbnail's size is observable in the file only
+        offs = layout_offsets(hdr, c)
+        back = VTF.read(io.BytesIO(data))
         out_c = proj_cfg(back, sheet_ver, fill)
-        rec['out'] = {'c': out_c, 'keys': proj_keys(back, True), 'meta': proj_meta(back), 'sheet': proj_sheet(back)}
-        offs = {(f, slice_index(s), m): fr._fileinfo[1] for (f, s, m), fr in back._frames.items()}
+        out_c['lw'], out_c['lh'] = hdr['lw'], hdr['lh']
+        rec['out'] = {'c': out_c, 'keys': proj_keys(back, offs), 'meta': proj_meta(back), 'sheet': proj_sheet(back)}
+        back_keys = frame_keys(back)
         back.load()
         lsize = FMT_INFO[c['low']][1] * c['lw'] * c['lh'] // 8 if c['low'] != 'NONE' else 0
-        lo = low_offset(rec['hdr'])
+        lo = low_offset(hdr)
         if c['low'] != 'NONE':
             rec['low2'] = list(data[lo: lo + lsize])
-            rec['lowout'] = pixels_of(back._low_res)
         if with_pix:
-            bpp = FMT_INFO[c['fmt']][1] // 8
             for key in sorted(pre_keys):
                 fr = pre_keys[key]
-                saved = key in offs
-                raw = list(data[offs[key]: offs[key] + bpp * fr.width * fr.height]) if saved else []
-                outp = pixels_of(back._frames[key[0], slices_of(back)[key[1]] if not c['cube'] else CubeSide(key[1]), key[2]]) if saved else []
+                saved = key in back_keys and key in offs
+                raw = list(data[offs[key][0]: offs[key][0] + offs[key][1]]) if saved else []
+                outp = pixels_of(back_keys[key]) if saved else []
                 img = given.get(key)
                 rec['pix'].append({'k': list(key), 'w': fr.width, 'h': fr.height, 'given': img is not None,
                                    'inp': [list(img[i:i + 4]) for i in range(0, len(img), 4)] if img is not None else [],
                                    'saved': saved, 'raw': raw, 'out': outp})
         elif c['fmt'] in EXACT4:
             for key, img in sorted(given.items()):
-                if key in offs:
-                    got = bytes(back._frames[key[0], CubeSide(key[1]) if c['cube'] else key[1], key[2]]._data)
+                if key in back_keys:
+                    got = frame_bytes(back_keys[key])
                     if got != img:
-                        rec['exact'] = next(i for i in range(len(img)) if got[i] != img[i])
+                        rec['exact'] = next((i for i in range(min(len(img), len(got))) if got[i] != img[i]), 0)
                         break
         try:
             buf2 = io.BytesIO()
@@ -317,14 +370,14 @@ def variant_record(path: list, case_seed: int, variant: str, with_pix: bool, src
     vtf, ver, fill, given = build(path, case_seed)
     if variant != 'regen':
         return round_trip(vtf, ver, fill, given, variant, with_pix, src)
-    vtf.mipmap_count = len({m for (_, _, m) in vtf._frames})
+    vtf.mipmap_count = len({m for (_, _, m) in frame_keys(vtf)})
     buf = io.BytesIO()
     vtf.save(buf, sheet_seq_version=ver)
     buf.seek(0)
     back = VTF.read(buf)
     back.load()
     back.clear_mipmaps()
-    given2 = {(f, slice_index(s), m): bytes(fr._data) for (f, s, m), fr in back._frames.items() if m == 0}
+    given2 = {key: frame_bytes(fr) for key, fr in frame_keys(back).items() if key[2] == 0}
     return round_trip(back, ver, 'l0', given2, 'regen', with_pix, src)
 
 
@@ -365,7 +418,7 @@ def replay_edges(edge_file: str, mode: str, out: hlib.RecWriter, stats: dict) ->
             vtf = make_vtf(a, random.Random(case_seed))
             c = {'w': a['w'], 'h': a['h'], 'frames': a['frames'], 'depth': DEPTH_OF[a['lay']], 'cube': a['lay'] == 'cube',
                  'minor': a['minor'], 'fmt': a['fmt'], 'low': a['low']}
-            out.write({'k': 'ctor', 'c': c, 'keys': proj_keys(vtf, False), 'mip': vtf.mipmap_count, 'hist': [a], 'seed': case_seed,
+            out.write({'k': 'ctor', 'c': c, 'keys': proj_keys(vtf, None), 'mip': vtf.mipmap_count, 'hist': [a], 'seed': case_seed,
                        'sig': {'kind': 'ctor', 'action': 'create', 'src': 'edge', 'thin': min(a['w'], a['h']) == 1}})
             stats['ctor'] = stats.get('ctor', 0) + 1
             got = strip(proj_cfg(vtf, 0, a['fill']))
@@ -399,9 +452,8 @@ def replay_edges(edge_file: str, mode: str, out: hlib.RecWriter, stats: dict) ->
 def access_record(path: list, case_seed: int, op: str, x: int, y: int) -> dict:
     vtf, _, _, given = build(path, case_seed)
     fr = vtf.get()
-    fr.load()
     w, h = fr.width, fr.height
-    before = bytes(fr._data)
+    before = frame_bytes(fr)
     raised = False
     exc = ''
     val_ok = False
@@ -412,14 +464,14 @@ def access_record(path: list, case_seed: int, op: str, x: int, y: int) -> dict:
             val_ok = 0 <= x < w and 0 <= y < h and tuple(px) == tuple(before[4 * (y * w + x): 4 * (y * w + x) + 4])
         else:
             fr[x, y] = new
-            after = bytes(fr._data)
+            after = frame_bytes(fr)
             if 0 <= x < w and 0 <= y < h:
                 off = 4 * (y * w + x)
                 val_ok = after[off:off + 4] == bytes(new) and after[:off] == before[:off] and after[off + 4:] == before[off + 4:]
     except Exception as e:  # noqa: BLE001
         raised = True
         exc = type(e).__name__
-    unchanged = bytes(fr._data) == before and len(fr._data) == len(before)
+    unchanged = frame_bytes(fr) == before
     return {'k': 'access', 'w': w, 'h': h, 'x': x, 'y': y, 'op': op, 'raised': raised, 'exc': exc, 'val_ok': val_ok,
             'unchanged': unchanged, 'hist': path, 'seed': case_seed,
             'sig': {'kind': 'access', 'action': op, 'src': 'edge', 'exc': exc,
@@ -466,6 +518,51 @@ def synth_file(c: dict, contents: dict | None = None, low_bytes: bytes | None = 
     return head + low + hi
 
 
+def img_size(fmt: str, w: int, h: int) -> int:
+    bits, comp = FMT_INFO[fmt][1], FMT_INFO[fmt][2]
+    return bits * ((w + 3) // 4) * ((h + 3) // 4) // 8 if comp else bits * w * h // 8
+
+
+def synth_record(c: dict, seed: int, src: str) -> dict:
+    """A harness-written file with unrelated random bytes in every image, read by VTF.read.  The frame
+    table is observed through VTF.get(); that each frame shows the image standing at its place in
+    the file is observed by decoding that block of the file separately (Frame.copy_from) and
+    comparing the pixels (placed)."""
+    rng = random.Random(seed)
+    rec = {'k': 'synth', 'c': c, 'exc': '', 'len': 0, 'keys': [], 'fields': [], 'placed': True, 'seed': seed,
+           'sig': {'kind': 'synth', 'action': 'read', 'fmt': c['fmt'], 'src': src, 'minor': c['minor']}}
+    try:
+        contents = {}
+        for m in range(c['mip']):
+            n = img_size(c['fmt'], max(1, c['w'] >> m), max(1, c['h'] >> m))
+            for f in range(c['frames']):
+                for sl in range(slice_count(c)):
+                    contents[f, sl, m] = bytes(rng.randrange(256) for _ in range(n))
+        data = synth_file(c, contents)
+        rec['len'] = len(data)
+        offs = layout_offsets(parse_vtf(data), c)
+        back = VTF.read(io.BytesIO(data))
+        rec['keys'] = proj_keys(back, offs)
+        rec['fields'] = [back.width, back.height, back.frame_count, back.depth, back.version[1],
+                         back.format.name, back.low_format.name, back.mipmap_count]
+        if c['fmt'] not in ('RGBA16161616', 'RGBA16161616F'):       # documented: only the metadata of these is read
+            for key, fr in frame_keys(back).items():
+                if fr is None or key not in offs:
+                    continue
+                alone = Frame(fr.width, fr.height)
+                try:
+                    alone.copy_from(data[offs[key][0]: offs[key][0] + offs[key][1]], ImageFormats[c['fmt']])
+                except NotImplementedError:      # no pure-Python decoder for this format: layout and metadata only
+                    break
+                if frame_bytes(alone) != frame_bytes(fr):
+                    rec['placed'] = False
+                    rec['sig']['misplaced'] = list(key)
+                    break
+    except Exception as exc:  # noqa: BLE001
+        rec['exc'] = f'{type(exc).__name__}: {exc}'
+    return rec
+
+
 def synth_cases(out: hlib.RecWriter, stats: dict) -> None:
     thorough = hlib.tier() == 'thorough'
     sizes = [1, 2, 4, 8, 16] if thorough else [1, 4, 8]
@@ -483,18 +580,7 @@ def synth_cases(out: hlib.RecWriter, stats: dict) -> None:
                                      'fill': 'l0', 'minor': minor, 'fmt': fmt, 'low': low, 'lw': 16 if low != 'NONE' else 0,
                                      'lh': 16 if low != 'NONE' else 0, 'mip': mip, 'res': [],
                                      'sheet': {'has': False, 'ver': 0, 'seqs': []}}
-                                rec = {'k': 'synth', 'c': c, 'exc': '', 'len': 0, 'keys': [], 'fields': [],
-                                       'sig': {'kind': 'synth', 'action': 'read', 'fmt': fmt, 'src': 'exhaustive', 'minor': minor}}
-                                try:
-                                    data = synth_file(c)
-                                    rec['len'] = len(data)
-                                    back = VTF.read(io.BytesIO(data))
-                                    rec['keys'] = proj_keys(back, True)
-                                    rec['fields'] = [back.width, back.height, back.frame_count, back.depth, back.version[1],
-                                                     back.format.name, back.low_format.name, back._low_res.width,
-                                                     back._low_res.height, back.mipmap_count]
-                                except Exception as exc:  # noqa: BLE001
-                                    rec['exc'] = f'{type(exc).__name__}: {exc}'
+                                rec = synth_record(c, hlib.seed() * 100003 + stats.get('synth', 0), 'exhaustive')
                                 out.write(rec)
                                 stats['synth'] = stats.get('synth', 0) + 1
 
@@ -517,7 +603,7 @@ def hist_record(c: dict, ops: list, seed: int, src: str) -> dict:
                 stored.append({'k': [f, sl, m], 'w': w, 'h': h, 'raw': list(raw)})
     low_raw = bytes(rng.randrange(256) for _ in range(FMT_INFO[c['low']][1] * c['lw'] * c['lh'] // 8)) if c['low'] != 'NONE' else b''
     rec = {'k': 'hist', 'c': c, 'ops': ops, 'stored': stored, 'exc': '', 'hdr': {'err': '-'}, 'keys': [], 'pix': [], 'seed': seed,
-           'low': list(low_raw), 'low2': [], 'lowout': [],
+           'low': list(low_raw), 'low2': [],
            'sig': {'kind': 'hist', 'action': 'resave', 'fmt': c['fmt'], 'src': src, 'minor': c['minor'], 'cube': c['cube'],
                    'ops': '+'.join(o['op'] for o in ops) or 'none'}}
     try:
@@ -525,7 +611,7 @@ def hist_record(c: dict, ops: list, seed: int, src: str) -> dict:
         sl_list = slices_of(vtf)
         for o in ops:
             if o['op'] == 'load':
-                for (f, s, m), fr in vtf._frames.items():
+                for (f, sl, m), fr in frame_keys(vtf).items():
                     if (o['sel'] == 'top' and m == 0) or (o['sel'] == 'small' and m >= 1) or o['sel'] == 'all':
                         fr.load()
             elif o['op'] == 'look':
@@ -544,16 +630,17 @@ def hist_record(c: dict, ops: list, seed: int, src: str) -> dict:
         vtf.save(buf)
         data = buf.getvalue()
         rec['hdr'] = parse_vtf(data)
+        if rec['hdr']['err']:
+            raise ValueError('written header unreadable: ' + rec['hdr']['err'])
+        offs = layout_offsets(rec['hdr'], c)
         back = VTF.read(io.BytesIO(data))
-        rec['keys'] = proj_keys(back, True)
-        for row in rec['keys']:
-            f, sl, m, w, h, off = row
-            fr = back._frames[f, CubeSide(sl) if c['cube'] else sl, m]
-            rec['pix'].append({'k': [f, sl, m], 'raw': list(data[off: off + bits * w * h // 8]) if off >= 0 else [], 'out': pixels_of(fr)})
+        rec['keys'] = proj_keys(back, offs)
+        for key, fr in sorted((k, v) for k, v in frame_keys(back).items() if v is not None):
+            off, size = offs.get(key, (-1, 0))
+            rec['pix'].append({'k': list(key), 'raw': list(data[off: off + size]) if off >= 0 else [], 'out': pixels_of(fr)})
         if c['low'] != 'NONE':
             lo = low_offset(rec['hdr'])
             rec['low2'] = list(data[lo: lo + len(low_raw)])
-            rec['lowout'] = pixels_of(back._low_res)
     except Exception as exc:  # noqa: BLE001 - the outcome is data for the specification
         rec['exc'] = f'{type(exc).__name__}: {exc}'
         rec['sig']['exc'] = type(exc).__name__
@@ -703,20 +790,10 @@ def main() -> None:
         elif rec['k'] == 'ctor':
             a = rec['hist'][0]
             vtf = make_vtf(a, random.Random(rec['seed']))
-            out.write({'k': 'ctor', 'c': rec['c'], 'keys': proj_keys(vtf, False), 'mip': vtf.mipmap_count,
+            out.write({'k': 'ctor', 'c': rec['c'], 'keys': proj_keys(vtf, None), 'mip': vtf.mipmap_count,
                        'sig': {'kind': 'ctor', 'action': 'create', 'src': 'replay'}})
         else:
-            c = rec['c']
-            new = dict(rec)
-            new['sig'] = {'kind': 'synth', 'action': 'read', 'fmt': c['fmt'], 'src': 'replay', 'minor': c['minor']}
-            try:
-                data = synth_file(c)
-                back = VTF.read(io.BytesIO(data))
-                new.update(exc='', len=len(data), keys=proj_keys(back, True),
-                           fields=[back.width, back.height, back.frame_count, back.depth, back.version[1], back.format.name,
-                                   back.low_format.name, back._low_res.width, back._low_res.height, back.mipmap_count])
-            except Exception as exc:  # noqa: BLE001
-                new['exc'] = f'{type(exc).__name__}: {exc}'
+            new = synth_record(rec['c'], rec.get('seed', 0), 'replay')
             out.write(new)
     else:
         raise SystemExit(2)
